@@ -98,6 +98,7 @@ type child struct {
 	journal  []byte // mmap: [0:8] block, [8:16] case, [16:24] phase
 	resume   int
 	only     int // -1 = all
+	describe bool // only produce the description of case `only`, run nothing
 	block    int
 	caseIdx  int
 	res      *blockResult
@@ -133,7 +134,7 @@ func (c *child) nontrivial(key string) {
 	c.distinct[report.KeyHash(c.suite.name+"|"+key)] = struct{}{}
 }
 
-func (c *child) wantSample() bool { return len(c.res.Samples) < 2 }
+func (c *child) wantSample() bool { return c.only >= 0 || len(c.res.Samples) < 2 }
 func (c *child) sample(v interface{}) {
 	if len(c.res.Samples) < 2 {
 		c.res.Samples = append(c.res.Samples, v)
@@ -152,6 +153,16 @@ func (c *child) violation(key, detail string, replay map[string]interface{}) {
 	v := &violRec{Key: key, Detail: detail, Replay: replay, Count: 1}
 	c.violIdx[key] = v
 	c.res.Viol = append(c.res.Viol, v)
+}
+
+// viol is violation with the detail built only for the first case of a key.
+func (c *child) viol(key string, mk func() (string, map[string]interface{})) {
+	if v, ok := c.violIdx[key]; ok {
+		v.Count++
+		return
+	}
+	d, r := mk()
+	c.violation(key, d, r)
 }
 
 // measure runs f and returns the bytes of heap allocated meanwhile (TotalAlloc
@@ -534,6 +545,26 @@ func (p *parent) runSuite(s *suite, nproc int, deadline time.Time) {
 	wg.Wait()
 }
 
+// mainGoroutine cuts a GOTRACEBACK=all dump down to the first (running) goroutine.
+func mainGoroutine(stderr string) string {
+	i := strings.Index(stderr, "goroutine ")
+	if i < 0 {
+		return stderr
+	}
+	s := stderr[i:]
+	if j := strings.Index(s, "\n\n"); j > 0 {
+		s = s[:j]
+	}
+	return s
+}
+
+func head(s string, n int) string {
+	if len(s) > n {
+		return s[:n] + "…"
+	}
+	return s
+}
+
 func tail(s string, n int) string {
 	if len(s) > n {
 		return "…" + s[len(s)-n:]
@@ -541,22 +572,42 @@ func tail(s string, n int) string {
 	return s
 }
 
+var describeMu sync.Mutex
+
+// describeCase re-enumerates block b in this process up to case cs and returns its
+// human readable description, without running anything.
+func describeCase(s *suite, b, cs int, thorough bool) (desc string) {
+	describeMu.Lock()
+	defer describeMu.Unlock()
+	defer func() { recover() }()
+	c := &child{suite: s, thorough: thorough, only: cs, describe: true}
+	fmt.Sscan(os.Getenv("VERIF_SEED"), &c.seed)
+	c.startBlock(b)
+	s.run(c, b)
+	if len(c.res.Samples) > 0 {
+		return fmt.Sprint(c.res.Samples[0])
+	}
+	return ""
+}
+
 // attribute turns the death (or hang) of a child inside a journalled case into a
 // finding. A death is re-run once in a fresh child to make sure it belongs to the
 // case and not to the machine; a hang must reproduce three times.
 func (p *parent) attribute(s *suite, b, cs int, hang bool, stderr string) {
 	replay := map[string]interface{}{
-		"cmd": fmt.Sprintf("worker -only %s:%d:%d -tier %s", s.name, b, cs, tierName(p.thorough)),
+		"cmd":  fmt.Sprintf("worker -only %s:%d:%d -tier %s", s.name, b, cs, tierName(p.thorough)),
+		"case": describeCase(s, b, cs, p.thorough),
 	}
 	reruns := 1
 	if hang {
 		reruns = 3
+	} else if strings.Contains(stderr, "fatal error: ") && siteFromTrace(mainGoroutine(stderr)) != "unknown-site" {
+		// a runtime fatal raised under a driver function while the journalled case was
+		// running: attributable as it stands
+		reruns = 0
 	}
 	for i := 0; i < reruns; i++ {
-		died, hung, se, desc := p.rerunOne(s, b, cs)
-		if desc != "" {
-			replay["case"] = desc
-		}
+		died, hung, se, _ := p.rerunOne(s, b, cs)
 		if hang && !hung || !hang && !died {
 			p.r.Infra("%s: case %d:%d: child %s once but not when re-run alone (not attributed): %s",
 				s.name, b, cs, map[bool]string{true: "hung", false: "died"}[hang], tail(stderr, 400))
@@ -584,7 +635,7 @@ func (p *parent) attribute(s *suite, b, cs int, hang bool, stderr string) {
 	case strings.HasPrefix(what, "panic:"):
 		cls = "uncaught-" + panicClass(strings.TrimPrefix(what, "panic: "))
 	}
-	site := siteFromTrace(stderr)
+	site := siteFromTrace(mainGoroutine(stderr))
 	key := fmt.Sprintf("fatal:%s:%s", site, cls)
 	if !s.deciding {
 		key = "supplementary:" + key
@@ -592,7 +643,7 @@ func (p *parent) attribute(s *suite, b, cs int, hang bool, stderr string) {
 	p.mu.Lock()
 	p.violCnt[key]++
 	p.mu.Unlock()
-	p.r.Violation(key, fmt.Sprintf("child process died in %s case %d:%d (%v): %s\n%s", s.name, b, cs, replay["case"], what, tail(stderr, 1500)), replay)
+	p.r.Violation(key, fmt.Sprintf("child process died in %s case %d:%d (%v): %s\n%s", s.name, b, cs, replay["case"], what, head(mainGoroutine(stderr), 1500)), replay)
 }
 
 // rerunOne runs a single case in a fresh child.
